@@ -294,8 +294,8 @@ func runScenario(t *testing.T, sc *Scenario) *ScenarioResult {
 				}
 				return 0
 			}
-			tr.headerf("inst %d %s %d %d %d %d %d %d %d %d %d %d", is.ID, is.Group, is.Prio, b2i(is.Takeover), int64(is.H), int64(is.TTL),
-				int64(is.Val), int64(is.Grace), is.MaxFail, b2i(is.HasHealth), b2i(is.ConnMon), int64(sc.StoreTTL))
+			tr.headerf("inst %d %s %d %d %d %d %d %d %d %d %d %d %d", is.ID, is.Group, is.Prio, b2i(is.Takeover), int64(is.H), int64(is.TTL),
+				int64(is.Val), int64(is.Grace), is.MaxFail, b2i(is.HasHealth), b2i(is.ConnMon), int64(sc.StoreTTL), b2i(is.Promote != "none"))
 			cfg := leader.ElectionConfig{Bucket: "b", Group: is.Group, InstanceID: fmt.Sprintf("i%d", is.ID), TTL: is.TTL, HeartbeatInterval: is.H,
 				ValidationInterval: is.Val, DisconnectGracePeriod: is.Grace, MaxConsecutiveFailures: is.MaxFail, Priority: is.Prio,
 				AllowPriorityTakeover: is.Takeover, Metrics: recMetrics{rt}}
